@@ -127,22 +127,49 @@ def allWrites (h : Handler) : List String := (h.items.filter (·.kind == "write"
 
 /-! ## golden form (handlers whose model does not expose its bank calls as data) -/
 
-/-- a bank item reduced to op, parties, denomination text, positivity class, loop / cache flags and the NUMBER of path
-conditions — the literal a golden pin compares with -/
+/-- the path conditions of an item as a signature: polarity and the 32-bit hash of the WHOLE condition text (numbers compare
+fast in the kernel; a change anywhere in a condition changes its hash) -/
+def condSig (it : Item) : List (Bool × Nat) := it.conds.map fun c => (c.pol, c.h)
+
+/-- a bank item reduced to op, party and denomination TEXTS, positivity class, condition signature, loop / cache flags —
+the literal a golden pin compares with -/
 structure Pin where
   op    : String
   src   : String
   dst   : String
   denom : String
   pos   : Bool
-  conds : Nat
+  conds : List (Bool × Nat)
   loop  : Bool
   cache : Bool
   deriving DecidableEq, Repr
 
 def pinOf (it : Item) : Pin :=
-  ⟨it.op, it.src, it.dst, it.denom, it.conds.any (·.kind == "pos"), it.conds.length, it.inLoop, it.cache⟩
+  ⟨it.op, it.src, it.dst, it.denom, it.conds.any (·.kind == "pos"), condSig it, it.inLoop, it.cache⟩
 
 def pins (h : Handler) : List Pin := (bankItems h).map pinOf
+
+/-- the same with parties and denomination mapped to ROLES by a reviewed (pattern) table -/
+structure RPin (R D : Type) where
+  kind  : BKind
+  src   : Option R
+  dst   : Option R
+  denom : D
+  pos   : Bool
+  conds : List (Bool × Nat)
+  loop  : Bool
+  cache : Bool
+  deriving DecidableEq, Repr
+
+def rpinOf {R D : Type} (r : Roles R D) (it : Item) : Option (RPin R D) :=
+  (skelOf r (fun _ => none) it).map fun s => ⟨s.kind, s.src, s.dst, s.denom, s.pos, condSig it, it.inLoop, it.cache⟩
+
+def rpinsOf {R D : Type} (r : Roles R D) : List Item → Option (List (RPin R D))
+  | [] => some []
+  | it :: rest => match rpinOf r it, rpinsOf r rest with
+    | some a, some l => some (a :: l)
+    | _, _ => none
+
+def rpins {R D : Type} (r : Roles R D) (h : Handler) : Option (List (RPin R D)) := rpinsOf r (bankItems h)
 
 end Comdex.Effects
